@@ -6,6 +6,7 @@ import ImathVerif.Gen.C09Frame
 import ImathVerif.Gen.C09Up
 import ImathVerif.Props.C05
 import ImathVerif.Lemmas.C09Lemmas
+import ImathVerif.Lemmas.C09FrameLemmas
 import Mathlib.Tactic.Ring
 import Mathlib.Tactic.FinCases
 import Mathlib.Tactic.LinearCombination
@@ -306,5 +307,157 @@ theorem M22_scale {α : Type} [CommRing α] (m m0 : M22 α) (s : V2 α) :
     (Gen.M22.scale m s).toMat = (Gen.M22.setScaleV m0 s).toMat * m.toMat := by
   ext i j; fin_cases i <;> fin_cases j <;>
     simp [Gen.M22.scale, Gen.M22.setScaleV, M22.toMat, Matrix.mul_apply, Fin.sum_univ_two] <;> ring
+
+/-! ## Frame builders
+
+`IsFrame M`: the 3×3 block of `M` has orthonormal rows and determinant +1 (right-handed) and the last column is `(0,0,0,1)`.
+`nrm len v` is `Vec3::normalized()` (`v / len v`, zero for zero length); `row0..row2` are the axes, `row3` the origin. -/
+
+section Frames
+variable {α : Type} [Field α] [LinearOrder α] [IsStrictOrderedRing α]
+
+/-- `alignZAxisWithTargetDir`: the extracted 60-path tree equals the documented case analysis (`alignZSpec`), structurally -/
+theorem alignZAxisWithTargetDir_spec (tmin : α) (sqrt : α → α) (targetDir upDir : V3 α) :
+    Gen.Frame.alignZAxisWithTargetDir tmin sqrt targetDir upDir = alignZSpec (Gen.V3.length tmin sqrt) targetDir upDir :=
+  alignZ_eq_spec tmin sqrt targetDir upDir
+
+/-- EVERY path — zero target, zero up, up ∥ target (both fallback axes), generic — yields an orthonormal right-handed
+frame without translation whose z-row is the normalised target (`+z` for a zero target) -/
+theorem alignZAxisWithTargetDir_frame (tmin : α) (sqrt : α → α) (hlen : LenSpec (Gen.V3.length tmin sqrt)) (targetDir upDir : V3 α) :
+    IsFrame (Gen.Frame.alignZAxisWithTargetDir tmin sqrt targetDir upDir) ∧
+      row3 (Gen.Frame.alignZAxisWithTargetDir tmin sqrt targetDir upDir) = ⟨0, 0, 0⟩ ∧
+      row2 (Gen.Frame.alignZAxisWithTargetDir tmin sqrt targetDir upDir)
+        = nrm (Gen.V3.length tmin sqrt) (if targetDir = ⟨0, 0, 0⟩ then ⟨0, 0, 1⟩ else targetDir) := by
+  rw [alignZ_eq_spec]
+  have h := alignZSpec_isFrame hlen targetDir upDir
+  refine ⟨h.1, h.2.1, ?_⟩
+  rw [h.2.2]; congr 1
+  simp only [azTarget, len_eq_zero_iff hlen]
+
+/-- generic inputs (target ≠ 0, up not parallel to it): the documented axes — x-row `up × target`, y-row
+`target × (up × target)`, z-row `target`, all normalised -/
+theorem alignZAxisWithTargetDir_axes (tmin : α) (sqrt : α → α) (hlen : LenSpec (Gen.V3.length tmin sqrt)) (targetDir upDir : V3 α)
+    (ht : targetDir ≠ ⟨0, 0, 0⟩) (hut : cross upDir targetDir ≠ ⟨0, 0, 0⟩) :
+    Gen.Frame.alignZAxisWithTargetDir tmin sqrt targetDir upDir =
+      frameM44 (nrm (Gen.V3.length tmin sqrt) (cross upDir targetDir))
+               (nrm (Gen.V3.length tmin sqrt) (cross targetDir (cross upDir targetDir)))
+               (nrm (Gen.V3.length tmin sqrt) targetDir) ⟨0, 0, 0⟩ := by
+  rw [alignZ_eq_spec]; exact alignZSpec_main hlen ht hut
+example : (⟨0, 0, 2⟩ : V3 ℝ) ≠ ⟨0, 0, 0⟩ ∧ cross (⟨0, 3, 0⟩ : V3 ℝ) ⟨0, 0, 2⟩ ≠ ⟨0, 0, 0⟩ := by
+  constructor <;> simp [cross]
+
+/-- fallbacks: a zero target is replaced by `+z`, a zero up by `+y` … -/
+theorem alignZAxisWithTargetDir_zero_target (tmin : α) (sqrt : α → α) (hlen : LenSpec (Gen.V3.length tmin sqrt)) (upDir : V3 α) :
+    Gen.Frame.alignZAxisWithTargetDir tmin sqrt ⟨0, 0, 0⟩ upDir = Gen.Frame.alignZAxisWithTargetDir tmin sqrt ⟨0, 0, 1⟩ upDir := by
+  rw [alignZ_eq_spec, alignZ_eq_spec]; exact alignZSpec_zero_target hlen upDir
+theorem alignZAxisWithTargetDir_zero_up (tmin : α) (sqrt : α → α) (hlen : LenSpec (Gen.V3.length tmin sqrt)) (targetDir : V3 α) :
+    Gen.Frame.alignZAxisWithTargetDir tmin sqrt targetDir ⟨0, 0, 0⟩ = Gen.Frame.alignZAxisWithTargetDir tmin sqrt targetDir ⟨0, 1, 0⟩ := by
+  rw [alignZ_eq_spec, alignZ_eq_spec]; exact alignZSpec_zero_up hlen targetDir
+/-- … and an up direction exactly parallel to the target by `target × x̂`, or by `target × ẑ` when the target is along x;
+the substituted up is never parallel to the target -/
+theorem alignZAxisWithTargetDir_parallel (tmin : α) (sqrt : α → α) (hlen : LenSpec (Gen.V3.length tmin sqrt)) (targetDir upDir : V3 α)
+    (ht : targetDir ≠ ⟨0, 0, 0⟩) (hu : upDir ≠ ⟨0, 0, 0⟩) (hut : cross upDir targetDir = ⟨0, 0, 0⟩) :
+    Gen.Frame.alignZAxisWithTargetDir tmin sqrt targetDir upDir
+        = Gen.Frame.alignZAxisWithTargetDir tmin sqrt targetDir
+            (if cross targetDir ⟨1, 0, 0⟩ = ⟨0, 0, 0⟩ then cross targetDir ⟨0, 0, 1⟩ else cross targetDir ⟨1, 0, 0⟩) ∧
+      cross (if cross targetDir ⟨1, 0, 0⟩ = ⟨0, 0, 0⟩ then cross targetDir ⟨0, 0, 1⟩ else cross targetDir ⟨1, 0, 0⟩) targetDir
+        ≠ ⟨0, 0, 0⟩ := by
+  have h := alignZSpec_parallel hlen ht hu hut
+  have e : azFallbackUp (Gen.V3.length tmin sqrt) targetDir
+      = (if cross targetDir ⟨1, 0, 0⟩ = ⟨0, 0, 0⟩ then cross targetDir ⟨0, 0, 1⟩ else cross targetDir ⟨1, 0, 0⟩) := by
+    simp only [azFallbackUp, len_eq_zero_iff hlen]
+  rw [alignZ_eq_spec, alignZ_eq_spec, ← e]; exact h
+example : (⟨0, 0, 2⟩ : V3 ℝ) ≠ ⟨0, 0, 0⟩ ∧ (⟨0, 0, -5⟩ : V3 ℝ) ≠ ⟨0, 0, 0⟩ ∧ cross (⟨0, 0, -5⟩ : V3 ℝ) ⟨0, 0, 2⟩ = ⟨0, 0, 0⟩ := by
+  refine ⟨by simp, by simp, by simp [cross]⟩
+
+/-- `rotationMatrixWithUpDir`: identity for a zero `fromDir`, otherwise `alignZ(fromDir, +y)ᵀ · alignZ(toDir, upDir)` -/
+theorem rotationMatrixWithUpDir_eq_alignZ (tmin : α) (sqrt : α → α) (fromDir toDir upDir : V3 α) :
+    (Gen.Frame.rotationMatrixWithUpDir tmin sqrt fromDir toDir upDir).toMat =
+      if Gen.V3.length tmin sqrt fromDir = 0 then 1
+      else (Gen.Frame.alignZAxisWithTargetDir tmin sqrt fromDir ⟨0, 1, 0⟩).toMatᵀ
+            * (Gen.Frame.alignZAxisWithTargetDir tmin sqrt toDir upDir).toMat :=
+  rotationMatrixWithUpDir_eq tmin sqrt fromDir toDir upDir
+
+/-- for ANY `toDir`, `upDir` (zero and parallel included) and `fromDir ≠ 0`: an orthonormal right-handed frame without
+translation that takes the direction of `fromDir` to the direction of `toDir` (`+z` for a zero `toDir`) -/
+theorem rotationMatrixWithUpDir_frame (tmin : α) (sqrt : α → α) (hlen : LenSpec (Gen.V3.length tmin sqrt)) (fromDir toDir upDir : V3 α)
+    (hf : fromDir ≠ ⟨0, 0, 0⟩) :
+    IsFrame (Gen.Frame.rotationMatrixWithUpDir tmin sqrt fromDir toDir upDir) ∧
+      row3 (Gen.Frame.rotationMatrixWithUpDir tmin sqrt fromDir toDir upDir) = ⟨0, 0, 0⟩ ∧
+      (nrm (Gen.V3.length tmin sqrt) fromDir).toVec ᵥ* rot3 (Gen.Frame.rotationMatrixWithUpDir tmin sqrt fromDir toDir upDir)
+        = (nrm (Gen.V3.length tmin sqrt) (if toDir = ⟨0, 0, 0⟩ then ⟨0, 0, 1⟩ else toDir)).toVec := by
+  have hA := alignZAxisWithTargetDir_frame tmin sqrt hlen fromDir ⟨0, 1, 0⟩
+  have hB := alignZAxisWithTargetDir_frame tmin sqrt hlen toDir upDir
+  have hl : Gen.V3.length tmin sqrt fromDir ≠ 0 := len_ne_zero hlen hf
+  have e := rotationMatrixWithUpDir_eq tmin sqrt fromDir toDir upDir
+  rw [if_neg hl] at e
+  obtain ⟨hF, h3, hr⟩ := isFrame_transpose_mul hA.1 hA.2.1 hB.1 hB.2.1 e
+  refine ⟨hF, h3, ?_⟩
+  rw [hr, ← Matrix.vecMul_vecMul]
+  have hrow : (nrm (Gen.V3.length tmin sqrt) fromDir).toVec
+      = fun j => rot3 (Gen.Frame.alignZAxisWithTargetDir tmin sqrt fromDir ⟨0, 1, 0⟩) 2 j := by
+    have := hA.2.2
+    rw [if_neg hf] at this
+    rw [← this]
+    ext j; fin_cases j <;> simp [V3.toVec, row2, rot3]
+  rw [hrow, vecMul_transpose_row2 hA.1.1, ← hB.2.2]
+  ext j; fin_cases j <;> simp [V3.toVec, row2, rot3, Matrix.vecMul, dotProduct, Fin.sum_univ_three]
+/-- a zero `fromDir` gives the identity -/
+theorem rotationMatrixWithUpDir_zero_from (tmin : α) (sqrt : α → α) (hlen : LenSpec (Gen.V3.length tmin sqrt)) (toDir upDir : V3 α) :
+    (Gen.Frame.rotationMatrixWithUpDir tmin sqrt ⟨0, 0, 0⟩ toDir upDir).toMat = 1 := by
+  rw [rotationMatrixWithUpDir_eq, if_pos ((len_eq_zero_iff hlen _).mpr rfl)]
+
+/-- `computeLocalFrame`: extracted tree = `x̂ = xDir^`, `ŷ = (normal × x̂)^`, `ẑ = (x̂ × ŷ)^`, origin `p` -/
+theorem computeLocalFrame_spec (tmin : α) (sqrt : α → α) (p xDir normal : V3 α) :
+    Gen.Frame.computeLocalFrame tmin sqrt p xDir normal = computeLocalFrameSpec (Gen.V3.length tmin sqrt) p xDir normal :=
+  computeLocalFrame_eq_spec tmin sqrt p xDir normal
+/-- for `xDir ≠ 0` not parallel to `normal`: an orthonormal right-handed frame at `p` with the x-axis along `xDir`, the y-axis
+along `normal × xDir` (so `normal` is normal to the y-axis), z = x × y, and z along `normal` when `normal ⟂ xDir` (documented) -/
+theorem computeLocalFrame_frame (tmin : α) (sqrt : α → α) (hlen : LenSpec (Gen.V3.length tmin sqrt)) (p xDir normal : V3 α)
+    (hx : xDir ≠ ⟨0, 0, 0⟩) (hn : cross normal xDir ≠ ⟨0, 0, 0⟩) :
+    IsFrame (Gen.Frame.computeLocalFrame tmin sqrt p xDir normal) ∧
+      row3 (Gen.Frame.computeLocalFrame tmin sqrt p xDir normal) = p ∧
+      row0 (Gen.Frame.computeLocalFrame tmin sqrt p xDir normal) = nrm (Gen.V3.length tmin sqrt) xDir ∧
+      row1 (Gen.Frame.computeLocalFrame tmin sqrt p xDir normal) = nrm (Gen.V3.length tmin sqrt) (cross normal xDir) ∧
+      row2 (Gen.Frame.computeLocalFrame tmin sqrt p xDir normal)
+        = cross (nrm (Gen.V3.length tmin sqrt) xDir) (nrm (Gen.V3.length tmin sqrt) (cross normal xDir)) ∧
+      (dot xDir normal = 0 → row2 (Gen.Frame.computeLocalFrame tmin sqrt p xDir normal) = nrm (Gen.V3.length tmin sqrt) normal) := by
+  rw [computeLocalFrame_eq_spec]; exact computeLocalFrameSpec_frame hlen p hx hn
+example : (⟨2, 0, 0⟩ : V3 ℝ) ≠ ⟨0, 0, 0⟩ ∧ cross (⟨0, 0, 3⟩ : V3 ℝ) ⟨2, 0, 0⟩ ≠ ⟨0, 0, 0⟩ ∧ dot (⟨2, 0, 0⟩ : V3 ℝ) ⟨0, 0, 3⟩ = 0 := by
+  refine ⟨by simp, by simp [cross], by simp [dot]⟩
+
+/-- `firstFrame`: extracted 18-path tree = the documented construction; `pi = pj` is the `domain_error` path
+(NB the real function is declared `noexcept`, so that path terminates the program instead of throwing — see the check's notes) -/
+theorem firstFrame_spec (tmin : α) (sqrt : α → α) (pi pj pk : V3 α) :
+    Gen.Frame.firstFrame tmin sqrt pi pj pk = firstFrameSpec (Gen.V3.length tmin sqrt) pi pj pk :=
+  firstFrame_eq_spec tmin sqrt pi pj pk
+/-- three non-collinear points: orthonormal right-handed frame at `pi`, tangent (x-row) along `pj − pi`, y-row along
+`(pj − pi) × (pk − pi)` (the plane normal), z-row = x × y -/
+theorem firstFrame_frame (tmin : α) (sqrt : α → α) (hlen : LenSpec (Gen.V3.length tmin sqrt)) (pi pj pk : V3 α)
+    (hd : vsub pj pi ≠ ⟨0, 0, 0⟩) (hc : cross (vsub pj pi) (vsub pk pi) ≠ ⟨0, 0, 0⟩) :
+    ∃ M, Gen.Frame.firstFrame tmin sqrt pi pj pk = .ok M ∧ IsFrame M ∧ row3 M = pi ∧
+      row0 M = nrm (Gen.V3.length tmin sqrt) (vsub pj pi) ∧
+      row1 M = nrm (Gen.V3.length tmin sqrt) (cross (vsub pj pi) (vsub pk pi)) ∧ row2 M = cross (row0 M) (row1 M) := by
+  rw [firstFrame_eq_spec]; exact firstFrameSpec_main hlen hd hc
+example : vsub (⟨1, 0, 0⟩ : V3 ℝ) ⟨0, 0, 0⟩ ≠ ⟨0, 0, 0⟩ ∧
+    cross (vsub (⟨1, 0, 0⟩ : V3 ℝ) ⟨0, 0, 0⟩) (vsub (⟨0, 1, 0⟩ : V3 ℝ) ⟨0, 0, 0⟩) ≠ ⟨0, 0, 0⟩ := by
+  constructor <;> simp [vsub, cross]
+/-- collinear points ("an arbitrary twist value will be chosen"): still an orthonormal right-handed frame at `pi` with the tangent
+along `pj − pi`; the twist is fixed by the coordinate axis along which the tangent is smallest -/
+theorem firstFrame_collinear (tmin : α) (sqrt : α → α) (hlen : LenSpec (Gen.V3.length tmin sqrt)) (pi pj pk : V3 α)
+    (hd : vsub pj pi ≠ ⟨0, 0, 0⟩) (hc : cross (vsub pj pi) (vsub pk pi) = ⟨0, 0, 0⟩) :
+    ∃ M, Gen.Frame.firstFrame tmin sqrt pi pj pk = .ok M ∧ IsFrame M ∧ row3 M = pi ∧
+      row0 M = nrm (Gen.V3.length tmin sqrt) (vsub pj pi) ∧ row2 M = cross (row0 M) (row1 M) := by
+  rw [firstFrame_eq_spec]
+  obtain ⟨M, h1, h2, h3, h4, _, h6⟩ := firstFrameSpec_collinear hlen hd hc
+  exact ⟨M, h1, h2, h3, h4, h6⟩
+/-- coincident first two points: the `std::domain_error` path -/
+theorem firstFrame_coincident (tmin : α) (sqrt : α → α) (hlen : LenSpec (Gen.V3.length tmin sqrt)) (pi pk : V3 α) :
+    Gen.Frame.firstFrame tmin sqrt pi pi pk = .error Exc.domainError := by
+  rw [firstFrame_eq_spec]
+  have : Gen.V3.length tmin sqrt (vsub pi pi) = 0 := (len_eq_zero_iff hlen _).mpr (by simp [vsub])
+  simp [firstFrameSpec, this]
+
+end Frames
 
 end ImathVerif.C09
